@@ -31,13 +31,14 @@ def nextlf_fun(arr):
     return NEXTLF if arr.name == "src" else z3.Function(f"NextLF_{arr.name}", z3.IntSort(), z3.IntSort())
 
 
-def new_stream(st, faultfree=False, name="src"):
+def new_stream(st, faultfree=False, name="src", bytearray_results=False):
     o = HObject("ext.Stream")
     arr = ByteArr.get(name)
     end = z3.Int(f"{name}_len")
     pos = z3.Int(f"{name}_pos0")
     st.assume(pos >= 0, end >= pos)
-    o.fields.update({"arr": arr, "pos": pos, "end": end, "faultfree": faultfree, "last_empty": False, "reads": 0})
+    o.fields.update({"arr": arr, "pos": pos, "end": end, "faultfree": faultfree, "last_empty": False, "reads": 0,
+                     "bytearray": bytearray_results})  # a duck-typed stream may hand out bytearray objects instead of bytes
     o.pycls = object  # any file-like object that is not a socket
     return st.alloc(o)
 
@@ -78,7 +79,7 @@ class StreamRead(Contract):
         f["reads"] = f["reads"] + 1
         f["last_empty"] = SBool(d == 0)
         st.writes.add((selfv.oid, "pos"))
-        return [(st, SBytes([View(arr, pos, newpos)]))]
+        return [(st, SBytes([View(arr, pos, newpos)], mutable=bool(f.get("bytearray"))))]
 
 
 @register
@@ -106,7 +107,7 @@ class StreamReadline(Contract):
         f["reads"] = f["reads"] + 1
         f["last_empty"] = SBool(d == 0)
         st.writes.add((selfv.oid, "pos"))
-        return [(st, SBytes([View(arr, pos, newpos)]))]
+        return [(st, SBytes([View(arr, pos, newpos)], mutable=bool(f.get("bytearray"))))]
 
 
 @register
@@ -155,6 +156,12 @@ def is_slice(v, arr, lo, hi):
     for x, y in zip(b.segs, b.segs[1:]):
         conds.append(x.hi == y.lo)  # adjacent slices
     return z3.And(*conds)
+
+
+def immutable_bytes(v):
+    """Bool term: v is a bytes object, not a bytearray (C14: a message's payload and the raw frame cannot be changed in place)."""
+    v = norm(v) if not isinstance(v, bytes) else v
+    return z3.BoolVal(isinstance(v, bytes) or (isinstance(v, SBytes) and not v.mutable))
 
 
 # ---------------------------------------------------------------------------------------
@@ -209,6 +216,7 @@ class ReadBytes(Contract):
             canary.append(s)
             eng.oblige(f"{self.qualname}.post.exactly_size_bytes_from_stream", s,
                        z3.And(is_slice(out.v, arr, p0, p0 + size), pos == p0 + size), site=fi.lineno, observe=obs)
+            eng.oblige(f"{self.qualname}.post.result_is_immutable_bytes", s, immutable_bytes(out.v), site=fi.lineno)
         return canary
 
 
@@ -308,6 +316,10 @@ class Parse(Contract):
                            note=f"raises {out.cls.__name__}", observe=obs)
                 if out.cls is exc("RTCMParseError"):
                     eng.oblige(f"{self.qualname}.exc.parse_error_only_for_bad_crc_when_validating", s, bad, kind="exc", site=fi.lineno, observe=obs)
+                else:
+                    # C05 / C08: a frame whose checksum fails is rejected *with a parse error*, whatever its payload would decode to
+                    eng.oblige(f"{self.qualname}.exc.bad_crc_when_validating_raises_parse_error", s, z3.Not(bad), kind="exc", site=fi.lineno,
+                               note=f"raises {out.cls.__name__}", observe=obs)
                 continue
             canary.append(s)
             eng.oblige(f"{self.qualname}.post.crc_checked_when_validating", s, z3.Not(bad), site=fi.lineno, observe=obs)
@@ -319,6 +331,7 @@ class Parse(Contract):
             f = s.obj(r).fields
             eng.oblige(f"{self.qualname}.post.payload_is_message_3_to_minus3", s, bool_term(ops.bytes_identical(s, f["_payload"], payload)),
                        site=fi.lineno, observe=obs)
+            eng.oblige(f"{self.qualname}.post.payload_is_immutable_bytes", s, immutable_bytes(f["_payload"]), site=fi.lineno)
             eng.oblige(f"{self.qualname}.post.labelmsm_passed_through", s, z3.BoolVal(f["_labelmsm"] is labelmsm), site=fi.lineno)
         return canary
 
@@ -417,6 +430,7 @@ class ParseRtcm3(Contract):
             raw, msg = r
             eng.oblige(f"{self.qualname}.post.raw_is_whole_frame_slice", s,
                        z3.And(is_slice(raw, arr, p0 - 2, p0 + 4 + size), pos == p0 + 4 + size), site=fi.lineno, observe=obs)
+            eng.oblige(f"{self.qualname}.post.raw_is_immutable_bytes", s, immutable_bytes(raw), site=fi.lineno)
             if msg is None:
                 eng.oblige(f"{self.qualname}.post.no_message_only_when_not_parsed", s, z3.Not(parsed), site=fi.lineno, observe=obs)
             else:
@@ -655,7 +669,7 @@ class Read(Contract):
         return outs
 
     def instances(self, tier):
-        return ["safety:handler", "safety:nohandler"]
+        return ["safety:handler", "safety:nohandler", "safety:bytearray-stream:nohandler"]
 
     def loop_spec(self, selfv, stream, p0, end, h0, q):
         def havoc(eng, st):
@@ -679,7 +693,8 @@ class Read(Contract):
     def verify(self, eng, inst):
         fi = extract.func(self.qualname)
         st = State()
-        stream = new_stream(st)
+        # third instance (C04 'any finite stream'): a file-like object whose read()/readline() return bytearray objects
+        stream = new_stream(st, bytearray_results="bytearray-stream" in inst)
         selfv = new_reader(st, stream, handler=inst.endswith(":handler"))
         sf = st.obj(stream).fields
         p0, arr, end = sf["pos"], sf["arr"], sf["end"]
